@@ -77,6 +77,10 @@ def preds():
     P += [('or', atoms[0], atoms[9]), ('and', ('not', atoms[10]), atoms[1])]
     P += [('and', atoms[0], atoms[5]), ('or', atoms[3], atoms[5]), ('and', ('not', atoms[1]), atoms[6]), ('or', atoms[2], ('not', atoms[5])),
           ('path', False, [('child', '*', ('cmp', '==', 'x'))])]
+    # direct-* axes inside predicates (evaluated backwards over the parent links of the graph)
+    dc, dd, dds = ('path', False, [('direct-child', 'b', None)]), ('path', False, [('direct-descendant', 'c', None)]), ('path', False, [('direct-descendant-or-self', 'ab', None)])
+    extra = [dc, dd, dds, ('path', False, [('direct-child', '*', None), ('child', 'c', None)]), ('and', ('not', dc), atoms[0]), ('and', ('not', dd), ('path', False, [('descendant', 'c', None)]))]
+    P[-1:-1] = extra        # keep the last element last (the quick tier picks P[-1])
     return P
 
 
@@ -314,6 +318,7 @@ def slice_worker(job):
     nq = nt = 0
     viol = {}
     nviol = 0
+    pathinst = {}       # instance (graph structure | query) -> (key, desc, text, mode, what): every input with a wrong result path
     outcomes = set()
     buf = io.StringIO()
     with contextlib.redirect_stdout(buf), contextlib.redirect_stderr(buf):
@@ -323,6 +328,8 @@ def slice_worker(job):
             os.makedirs(d)
             names = write_project(d, n, order, edges, forward, roots)
             os.chdir(d)
+            gsig = 'names=%s edges=%s forward=%s roots=%s' % (names, {names[i]: [names[j] for j in e] for i, e in edges.items() if e},
+                                                              [names[i] for i in forward], [names[i] for i in roots])
             desc = 'graph %d: names=%s edges=%s forward=%s roots=%s' % (gid, names, {names[i]: [names[j] for j in e] for i, e in edges.items() if e},
                                                                       [names[i] for i in forward], [names[i] for i in roots])
             recipes = RecipeSet()
@@ -389,8 +396,10 @@ def slice_worker(job):
                                         vs.append(('result-path-leads-elsewhere', 'reported path %s does not lead to the returned package' % '/'.join(stack)))
                                     gotkeys.add(p._getId())
                                     if keys[-1] in exp[1] and not ref.path_ok(keys, steps):
-                                        vs.append(('result-path-misses-intermediate-step',
-                                                   'package %s reported with path %s which does not pass through matches of the steps of the query' % (p.getName(), '/'.join(stack))))
+                                        # two classes: the reported path only uses nodes that lie on some matching path (but combines
+                                        # them with an edge no matching path takes), or it leaves the matching paths altogether
+                                        what_ = 'package %s reported with path %s which does not pass through matches of the steps of the query' % (p.getName(), '/'.join(stack))
+                                        pathinst.setdefault(gsig + ' | ' + text, ('result-path-misses-intermediate-step', desc, text, mode, what_))
                                 if gotkeys != exp[1]:
                                     kind = 'missing' if gotkeys < exp[1] else ('extra' if gotkeys > exp[1] else 'other')
                                     vs.append(('wrong-result-set:%s%s' % (kind, ':warm-cache-only' if round_ and False else ''), 'returned %s, reference %s' % (
@@ -401,7 +410,7 @@ def slice_worker(job):
     if host is not None: host.close()
     RecipeSet.setQueryMode(None)
     shutil.rmtree(base, ignore_errors=True)
-    return k, nq, nt, len(outcomes), list(viol.values()), nviol, len(Q)
+    return k, nq, nt, len(outcomes), list(viol.values()), nviol + len(pathinst), len(Q), pathinst
 
 
 def select_graphs(quick, seed=0):
@@ -429,10 +438,20 @@ def run(ctx):
     ctx.log('%d of %d graphs selected, %d queries x 3 modes (+ warm adjacency cache round)' % (len(sel), len(G), nQ))
     nq = nt = 0
     total_viol = 0
-    for k, a, b, no, viols, nv, lq in runner.pmap_unordered(slice_worker, jobs, chunksize=1):
+    allinst = {}
+    for k, a, b, no, viols, nv, lq, pathinst in runner.pmap_unordered(slice_worker, jobs, chunksize=1):
         nq += a; nt += b; total_viol += nv
         for key, d, text, mode, what in viols:
             ctx.violation(key, '%s; query %r mode %s: %s' % (d, text, mode, what), dict(graph=d, query=text, mode=mode))
+        allinst.update(pathinst)
+    # wrong result paths: every failing (graph, query) input is reported; the open finding covers exactly the inputs listed in its file
+    for inst in sorted(allinst):
+        key, d, text, mode, what = allinst[inst]
+        ctx.violation(key, '%s; query %r mode %s: %s' % (d, text, mode, what), dict(graph=d, query=text, mode=mode), instance=inst)
+    if ctx.opts.get('dumpinstances'):
+        with open(ctx.opts['dumpinstances'], 'w') as f:
+            f.write('\n'.join(sorted(allinst)) + '\n')
+    ctx.log('%d inputs (graph, query) with a result path that does not pass through the query steps' % len(allinst))
     ctx.log('%d query evaluations on the real PackageSet, %d with a defined expectation, %d violations in total' % (nq, nt, total_viol))
     samples = [dict(graph='names=[a,b,ab] edges={a:[b], b:[ab]} roots=[a]', query='descendant@a*[!(b)]/child@*', modes=['nullset', 'nullglob', 'nullfail'])]
     return ctx.finish(dict(
